@@ -413,4 +413,85 @@ theorem lfold_refines {c : LCfg} (ops : List LOp) {s : LSpace} {st : List Aid ×
 theorem lrun_refines (c : LCfg) (ops : List LOp) : LRef c (lrun c ops) (lspec c ops) :=
   lfold_refines ops ⟨linv_init c, rfl, rfl, rfl⟩
 
+/-! ### bounds -/
+
+def LCfg.WF (c : LCfg) : Prop := c.xmin < c.xmax ∧ c.ymin < c.ymax
+
+theorem torusAdj_inside (c : LCfg) (p : P2) (h : oob c p = false) : torusAdj c p = .ok p := by
+  simp [torusAdj, h]
+
+theorem torusAdj_reject (c : LCfg) (p : P2) (h : oob c p = true) (ht : c.torus = false) :
+    torusAdj c p = .error .oob := by
+  simp [torusAdj, h, ht]
+
+theorem torusAdj_wrap (c : LCfg) (hw : c.WF) (p : P2) (h : oob c p = true) (ht : c.torus = true) :
+    ∃ p', torusAdj c p = .ok p' ∧ oob c p' = false ∧
+      ∃ kx ky : Int, p' = (p.1 + kx * c.width, p.2 + ky * c.height) := by
+  refine ⟨_, by simp [torusAdj, h, ht]; rfl, ?_, ?_⟩
+  · have hx := wrap_bounds c.xmin c.width p.1 (by unfold LCfg.width; have := hw.1; omega)
+    have hy := wrap_bounds c.ymin c.height p.2 (by unfold LCfg.height; have := hw.2; omega)
+    simp only [oob, Bool.or_eq_false_iff, decide_eq_false_iff_not]
+    unfold LCfg.width at hx; unfold LCfg.height at hy
+    refine ⟨⟨⟨?_, ?_⟩, ?_⟩, ?_⟩ <;> simp only [LCfg.width, LCfg.height] <;> omega
+  · obtain ⟨kx, hx⟩ := wrap_congr c.xmin c.width p.1
+    obtain ⟨ky, hy⟩ := wrap_congr c.ymin c.height p.2
+    exact ⟨kx, ky, by rw [hx, hy]⟩
+
+theorem torusAdj_ok_inside (c : LCfg) (hw : c.WF) {p p' : P2} (h : torusAdj c p = .ok p') : oob c p' = false := by
+  cases ho : oob c p with
+  | false => rw [torusAdj_inside c p ho] at h; cases h; exact ho
+  | true =>
+    cases ht : c.torus with
+    | false => rw [torusAdj_reject c p ho ht] at h; cases h
+    | true =>
+      obtain ⟨q, h1, h2, _⟩ := torusAdj_wrap c hw p ho ht
+      rw [h1] at h; cases h; exact h2
+
+/-- every agent in the space has a position, and it lies in the space -/
+theorem lspec_inside (c : LCfg) (hw : c.WF) (ops : List LOp) :
+    ∀ a ∈ (lspec c ops).1, ∃ p, (lspec c ops).2 a = some p ∧ oob c p = false := by
+  suffices H : ∀ (ops : List LOp) (st : List Aid × (Aid → Option P2)),
+      (∀ a ∈ st.1, ∃ p, st.2 a = some p ∧ oob c p = false) →
+      ∀ a ∈ (ops.foldl (lspecStep c) st).1, ∃ p, (ops.foldl (lspecStep c) st).2 a = some p ∧ oob c p = false from
+    H ops _ (by simp)
+  intro ops
+  induction ops with
+  | nil => intro st h; exact h
+  | cons op ops ih =>
+    intro st h
+    apply ih
+    cases op with
+    | place a p =>
+      simp only [lspecStep]
+      cases hp : torusAdj c p with
+      | error e => exact h
+      | ok p' =>
+        intro b hb
+        by_cases hba : b = a
+        · exact ⟨p', by simp [upd, hba], torusAdj_ok_inside c hw hp⟩
+        · simp only [upd, hba, if_false]
+          apply h
+          simp only at hb
+          split at hb
+          · exact hb
+          · simpa [hba] using hb
+    | move a p =>
+      simp only [lspecStep]
+      cases hp : torusAdj c p with
+      | error e => exact h
+      | ok p' =>
+        intro b hb
+        by_cases hba : b = a
+        · exact ⟨p', by simp [upd, hba], torusAdj_ok_inside c hw hp⟩
+        · simp only [upd, hba, if_false]; exact h b hb
+    | remove a =>
+      simp only [lspecStep]
+      split
+      · intro b hb
+        have ⟨hb1, hb2⟩ := List.mem_filter.mp hb
+        have hba : b ≠ a := by simpa using hb2
+        simp only [upd, hba, if_false]; exact h b hb1
+      · exact h
+    | nbrs p r incl => exact h
+
 end Mesa.Cont
